@@ -14,7 +14,7 @@
    [stat_sim] / [obs_sim]: equality, except that the specification reports 0 for the size of a directory (in a
    FileInfo, and in every entry of a directory listing). *)
 From Avfs Require Import Base PathModel PathSpec PathProofs PathCleanProofs PathIterProofs.
-From Avfs Require Import MemFS MemFile World Posix WalkBridge WalkSym WalkBudget WalkReadlink StepEq.
+From Avfs Require Import MemFS MemFile World Posix Inv WalkBridge WalkSym WalkBudget WalkReadlink WalkRel StepEq WalkInv StepInv.
 
 Theorem C01_step_stat : forall (s : fsys) (sv : sview) (cs : list str),
   step_hyps s sv -> path_ok s sv SlStat cs ->
@@ -103,6 +103,17 @@ Theorem C01_step_read_dir : forall (s : fsys) (sv : sview) (cs : list str),
   obs_sim (proj_res Linux (read_dir s (sv_view sv) (abs_path cs))) (go_read_dir s sv (abs_path cs)).
 Proof. exact step_read_dir. Qed.
 
+(* Rename of a file or symbolic link to a name that does not exist yet (any directories, any links on the way) *)
+Theorem C01_step_rename_new :
+  forall (s : fsys) (sv : sview) (wo : list str) (clo : str) (wn : list str) (cln : str) (np : nat) (md : bool),
+  step_hyps s sv -> path_ok s sv SlLstat (wo ++ [clo]) -> path_ok s sv SlLstat (wn ++ [cln]) ->
+  source_not_dir s sv (wo ++ [clo]) ->
+  klookup s sv false false (abs_path (wn ++ [cln])) = WNeg np cln md ->
+  let o := abs_path (wo ++ [clo]) in
+  let n := abs_path (wn ++ [cln]) in
+  (fst (rename s (sv_view sv) o n), proj_res Linux (snd (rename s (sv_view sv) o n))) = go_rename s sv o n.
+Proof. exact step_rename_new. Qed.
+
 (* WriteFile: OpenFile(O_WRONLY|O_CREATE|O_TRUNC), Write, Close - against open(2) with the same flags + write *)
 Theorem C01_step_write_file : forall (s : fsys) (sv : sview) (w : list str) (cl : str) (data : list N) (perm : N),
   step_hyps s sv -> path_ok s sv SlLstat (w ++ [cl]) -> path_ok s sv SlEval (w ++ [cl]) ->
@@ -111,6 +122,57 @@ Theorem C01_step_write_file : forall (s : fsys) (sv : sview) (w : list str) (cl 
    proj_res Linux (snd (write_file s (sv_view sv) (abs_path (w ++ [cl])) data perm)))
   = go_write_file s sv (abs_path (w ++ [cl])) data perm.
 Proof. exact step_write_file. Qed.
+
+(* OpenFile as a call of its own, for the flag sets O_RDONLY and O_WRONLY|O_CREATE|O_TRUNC: same resulting file
+   system; same errno, or the handle is on the node open(2) returns *)
+Theorem C01_step_open_rdonly : forall (s : fsys) (sv : sview) (vi : nat) (cs : list str) (perm : N),
+  step_hyps s sv -> path_ok s sv SlEval cs ->
+  open_sim (open_file s (sv_view sv) vi (abs_path cs) 0 perm) (k_open s sv (abs_path cs) 0 perm).
+Proof. exact step_open_rdonly. Qed.
+
+Theorem C01_step_open_create_trunc : forall (s : fsys) (sv : sview) (vi : nat) (w : list str) (cl : str) (perm : N),
+  step_hyps s sv -> path_ok s sv SlLstat (w ++ [cl]) -> path_ok s sv SlEval (w ++ [cl]) ->
+  no_setgid_parent_follow s sv (w ++ [cl]) ->
+  open_sim (open_file s (sv_view sv) vi (abs_path (w ++ [cl])) WCT perm) (k_open s sv (abs_path (w ++ [cl])) WCT perm).
+Proof. exact step_open_wct. Qed.
+
+(* Stat/Lstat, Readlink, Chtimes, Chmod, Truncate, Chdir for ANY path on which the two walks are related ([resolved]):
+   clean absolute paths ([resolved_abs]) and clean RELATIVE paths, given that the working-directory string is a
+   directory walk to the kernel's working-directory node ([C01_resolved_rel], from C04_resolve_rel) *)
+Theorem C01_resolved_rel : forall (s : fsys) (sv : sview) (slm : slmode) (bs : list str) (x : str),
+  step_hyps s sv ->
+  v_cwd (sv_view sv) = abs_path bs -> Forall good_comp bs ->
+  dwalk (f_heap s) (v_user (sv_view sv)) (v_root (sv_view sv)) bs = Some (sv_cwd sv) ->
+  is_abs Linux (clean Linux x) = false ->
+  klookup s sv false (follow_of slm) (clean Linux x) <> WErr EFUEL ->
+  sr_err (search_node s (sv_view sv) (clean Linux x) slm) <> EFuel ->
+  resolved s sv slm (clean Linux x).
+Proof. exact resolved_rel. Qed.
+
+Theorem C01_steps_resolved : forall (s : fsys) (sv : sview) (p : str),
+  step_hyps s sv ->
+  (forall slm, resolved s sv slm p ->
+     stat_sim (proj_res Linux (stat_gen slm s (sv_view sv) p)) (k_stat (follow_of slm) s sv p))
+  /\ (resolved s sv SlLstat p -> proj_res Linux (readlink s (sv_view sv) p) = k_readlink s sv p)
+  /\ (resolved s sv SlEval p -> proj_res Linux (chtimes s (sv_view sv) p) = k_utimes s sv p)
+  /\ (forall mode, resolved s sv SlEval p ->
+        (fst (chmod s (sv_view sv) p mode), proj_res Linux (snd (chmod s (sv_view sv) p mode))) = k_chmod s sv p mode)
+  /\ (forall size, resolved s sv SlEval p ->
+        (fst (truncate s (sv_view sv) p size), proj_res Linux (snd (truncate s (sv_view sv) p size)))
+        = k_truncate s sv p size)
+  /\ (resolved s sv SlEval p ->
+        match chdir s (sv_view sv) p, k_chdir s sv p with
+        | inl r, inl e => proj_res Linux r = SErr e
+        | inr _, inr _ => True
+        | _, _ => False
+        end).
+Proof. exact steps_resolved. Qed.
+
+(* the hypotheses of a step on the states of C05: [Inv] gives everything except [links_clean] and the administrator *)
+Theorem C01_inv_step_hyps : forall (w : world) (vi : nat) (v : view) (cwdn : nat),
+  Inv w -> nth_error (w_views w) vi = Some v -> us_admin (v_user v) = true -> links_clean (f_heap (w_fs w)) ->
+  step_hyps (w_fs w) {| sv_view := v; sv_cwd := cwdn |}.
+Proof. exact Inv_step_hyps. Qed.
 
 (* one step of the two step functions of the models (the statement the oracle stream's "T" column tests):
    covered call => same projected result, and the abstraction relation is kept (same file system, same view) *)
@@ -127,3 +189,34 @@ Theorem C01_history : forall (vi : nat) (cs : list call) (w : world) (sw : sworl
   Forall2 obs_sim (snd (impl_run w cs)) (snd (spec_run sw cs))
   /\ absw (fst (impl_run w cs)) vi (fst (spec_run sw cs)).
 Proof. exact history_world. Qed.
+
+(* [links_ok] = named links have cleaned targets + a symbolic link has one name: kept by every covered call *)
+Theorem C01_links_ok_step : forall (vi : nat) (sw : sworld) (c : call),
+  covered vi sw c -> ptr_valid (f_heap (sw_fs sw)) -> links_ok (f_heap (sw_fs sw)) ->
+  links_ok (f_heap (sw_fs (fst (spec_step true sw c)))) /\ sw_sv (fst (spec_step true sw c)) = sw_sv sw.
+Proof. exact links_ok_spec_step. Qed.
+
+(* THE HISTORY THEOREM ON THE STATES OF C05.  Start from any world satisfying the invariant [Inv] of C05 (every world
+   reachable from the initial one does: C05_reach) whose links are [links_ok], seen by the administrator; let every
+   call of the history be covered ([call_ok]: the per-call premises - clean absolute paths, the listed deviation
+   classes, the two model-fuel conditions - which may themselves assume the hypotheses on the state).  Then, call by
+   call, the implementation model and the specification give the same results, the file systems stay equal, and
+   [Inv] and [links_ok] hold again at the end: no hypothesis on intermediate states is left. *)
+Theorem C01_history_inv : forall (vi : nat) (cs : list call) (w : world) (sw : sworld),
+  Inv w -> absw w vi sw -> us_admin (v_user (sv_view (sw_sv sw))) = true -> links_ok (f_heap (w_fs w)) ->
+  call_ok_run vi sw cs ->
+  Forall2 obs_sim (snd (impl_run w cs)) (snd (spec_run sw cs))
+  /\ absw (fst (impl_run w cs)) vi (fst (spec_run sw cs))
+  /\ Inv (fst (impl_run w cs)) /\ links_ok (f_heap (w_fs (fst (impl_run w cs)))).
+Proof. exact history_inv. Qed.
+
+(* non-vacuity: a world with every kind of link satisfies Inv (decided by inv_check) and links_ok, and the theorem
+   applies to a history on it *)
+Example C01_history_inv_example :
+  Inv StepExamples.w_tree /\ links_ok (f_heap (w_fs StepExamples.w_tree))
+  /\ Forall2 obs_sim (snd (impl_run StepExamples.w_tree StepExamples.hist))
+                     (snd (spec_run StepExamples.sw_tree StepExamples.hist)).
+Proof.
+  split; [exact StepInvExamples.tree_inv|]. split; [exact StepInvExamples.tree_links_ok|].
+  exact (proj1 StepInvExamples.hist_inv).
+Qed.
